@@ -6,6 +6,7 @@ Models: `DarsiaModel.SignalModels` (exact rationals; mirrors the classes after t
 -/
 import DarsiaProofs.SignalModels
 import DarsiaProofs.KernelInterp
+import DarsiaProofs.SignalOps
 import DarsiaGen.SignalTables
 import Mathlib.Algebra.Order.AbsoluteValue.Basic
 namespace Darsia.C14
@@ -110,7 +111,8 @@ theorem routing_all (ms : List M) (ps : List Rat) (h : (ms.map M.numParams).sum 
   rw [updateAll_eq ms ps h, assignAll_eq_zipWith]
   exact ⟨rfl, slices_flatten _ _ h⟩
 
-/-- `routing_subset`: for every list of `(position, dofs)` entries that are valid for the addressed
+/-- `routing_subset` (specification by slices; `assignSubset`/`withDofs` repeat the dispatch of the classes
+but read ONLY the slice they are handed — the global statement is `routing_subset_slices`): for every list of `(position, dofs)` entries that are valid for the addressed
 models and select `t ≤ |ps|` parameters in total, the update succeeds and entry after entry hands the
 addressed model exactly the next `k` entries (`assignSubset`), where `k` is the number of parameters
 the named dofs select — for every subset of updatable parameters, in the order of the list. -/
@@ -145,18 +147,19 @@ theorem dispatch_matches_code : ∀ k ∈ Kind.all,
 
 /-! ### label-wise models, thresholding -/
 
-/-- `hetero_eq_homog_on_label`: on the region of label index `ℓ` the label-wise linear model is the
-homogeneous `LinearModel(scaling[ℓ], offset[ℓ])` -/
+/-- clause form (holds by definition of the pointwise model; the content is `hetero_loop_eq_homog_on_label`
+below): on the region of label index `ℓ` the label-wise linear model is `LinearModel(scaling[ℓ], offset[ℓ])` -/
 theorem hetero_eq_homog_on_label (L : Nat) (s o : List Rat) (p : Pixel) :
     (M.het L s o).applyPix p = (M.linear (listGetD s p.label 0) (listGetD o p.label 0)).applyPix p := rfl
 
-/-- `threshold_strict`: a pixel is selected iff its value is strictly between the bounds (upper bound
+/-- clause form of the pointwise threshold (unfolds the definition; the code's boolean operations and label
+loop are `thrHomCall` / `thrHetCall`, tied to this form by `threshold_ops_eq_clause`): a pixel is selected iff its value is strictly between the bounds (upper bound
 optional) and it lies inside the mask (if one is given) -/
 theorem threshold_strict (lo : Rat) (hi : Option Rat) (mask : Option Bool) (p : Pixel) :
     thrHom lo hi mask p = true ↔ lo < p.val ∧ (∀ h, hi = some h → p.val < h) ∧ mask ≠ some false := by
   cases hi <;> cases mask <;> simp [thrHom, between, and_assoc]
 
-/-- label-wise thresholding is homogeneous thresholding with that label's bounds -/
+/-- (by definition) label-wise thresholding is homogeneous thresholding with that label's bounds -/
 theorem threshold_hetero (lo : List Rat) (hi : Option (List Rat)) (mask : Option Bool) (p : Pixel) :
     thrHet lo hi mask p = thrHom (listGetD lo p.label 0) (hi.map fun h => listGetD h p.label 0) mask p := rfl
 
@@ -171,32 +174,83 @@ theorem wrapper_linear_eq_hetero (L : Nat) (s o : List Rat) (p : Pixel) (hs : p.
     (ho : p.label < o.length) : wrapApplyPix (List.zipWith M.linear s o) p = (M.het L s o).applyPix p :=
   wrap_linear_eq_het L s o p hs ho
 
-/-- **nearest-neighbour contract** of `cv2.resize(labels, (W, H), INTER_NEAREST)`: the result has shape
-`H × W`, creates no new label (every entry is an entry of the source), each axis is sampled monotonically at
-`⌊x·n/N⌋`, and a map of the signal's shape is used as it is. -/
-theorem resize_nearest_contract (src : List (List Nat)) (w H W : Nat) (hh : 0 < src.length) (hw : 0 < w)
-    (hrect : ∀ row ∈ src, row.length = w) :
-    (resizeNearest src H W).length = H ∧ (∀ row ∈ resizeNearest src H W, row.length = W) ∧
-    (∀ row ∈ resizeNearest src H W, ∀ v ∈ row, ∃ srow ∈ src, v ∈ srow) ∧
-    (∀ n N x y, x ≤ y → nearIdx n N x ≤ nearIdx n N y) ∧ (∀ n x, x < n → nearIdx n n x = x) ∧
-    labelsFor src src.length (listGetD src 0 []).length = src :=
-  ⟨(resizeNearest_shape src H W).1, (resizeNearest_shape src H W).2, resizeNearest_subset src w H W hh hw hrect,
-    fun n N _ _ h => nearIdx_mono n N h, fun _ _ h => nearIdx_id h, by simp [labelsFor]⟩
+/-- **nearest-neighbour contract** of `cv2.resize(labels, (W, H), INTER_NEAREST)`, for OpenCV's index rule
+`floor(x · (1.0/(N/n)))` in doubles = exact `⌊x·n/N⌋` minus one at the rounding points `dev` (any table `dev`
+of rounding points that are exact breakpoints, `DevOk`): the result has shape `H × W`, creates no new label,
+samples each axis monotonically, never above the exact index, and a map of the signal's shape is used as it is. -/
+theorem resize_nearest_contract (dev : Dev) (hd : DevOk dev = true) (src : List (List Nat)) (w H W : Nat)
+    (hh : 0 < src.length) (hw : 0 < w) (hrect : ∀ row ∈ src, row.length = w) :
+    (resizeNearest dev src H W).length = H ∧ (∀ row ∈ resizeNearest dev src H W, row.length = W) ∧
+    (∀ row ∈ resizeNearest dev src H W, ∀ v ∈ row, ∃ srow ∈ src, v ∈ srow) ∧
+    (∀ n N x y, x ≤ y → nearIdx dev n N x ≤ nearIdx dev n N y) ∧ (∀ n x, x < n → nearIdx dev n n x = x) ∧
+    (∀ n N x, nearIdx dev n N x ≤ nearIdxExact n N x) ∧
+    labelsFor dev src src.length (listGetD src 0 []).length = src :=
+  ⟨(resizeNearest_shape dev src H W).1, (resizeNearest_shape dev src H W).2, resizeNearest_subset dev src w H W hh hw hrect,
+    fun n N _ _ h => nearIdx_mono dev hd n N h, fun _ _ h => nearIdx_id dev hd h, nearIdx_le_exact dev,
+    by simp [labelsFor]⟩
 
 /-- **the label map in force never depends on the call history**: after any sequence of calls with signals of
 positive shapes on one `HeterogeneousLinearModel`, the map used for a signal of shape `H × W` is
 `labelsFor labels H W` — the original labels if the shapes agree, else the nearest-neighbour resize of the
 ORIGINAL labels (never of a previously resized copy). -/
-theorem label_cache_history_free (labels : List (List Nat)) (w : Nat) (hrect : ∀ row ∈ labels, row.length = w)
-    (hw : (listGetD labels 0 []).length = w) (shapes : List (Nat × Nat)) (H W : Nat)
-    (hpos : ∀ s ∈ shapes, 0 < s.1) (hH : 0 < H) :
-    cacheRun labels (shapes ++ [(H, W)]) = labelsFor labels H W :=
-  cacheRun_last labels w hrect hw shapes H W hpos hH
+theorem label_cache_history_free (dev : Dev) (hd : DevOk dev = true) (labels : List (List Nat)) (w : Nat)
+    (hrect : ∀ row ∈ labels, row.length = w) (hw : (listGetD labels 0 []).length = w)
+    (shapes : List (Nat × Nat)) (H W : Nat) (hpos : ∀ s ∈ shapes, 0 < s.1) (hH : 0 < H) :
+    cacheRun dev labels (shapes ++ [(H, W)]) = labelsFor dev labels H W :=
+  cacheRun_last dev hd labels w hrect hw shapes H W hpos hH
 
-/-- the index map OpenCV uses is the model's, along rows and along columns, for all tabulated sizes -/
+/-- the rounding points tabulated from `cv2.resize` for all sizes `n, N ≤ 64` are exact breakpoints (so the
+two theorems above apply to the generated table) … -/
+theorem cv2_rounding_points_ok : DevOk Gen.nearDev = true := by decide +kernel
+
+/-- … and with them the model's index map is OpenCV's, along rows and along columns, for every size pair of
+the full cross-check table (`n, N ≤ 16`; the Python side checks the same identity for all `n, N ≤ 64`) -/
 theorem resize_matches_code : ∀ e ∈ Gen.nearTable,
-    e.2.2.1 = (List.range e.2.1).map (nearIdx e.1 e.2.1) ∧ e.2.2.2 = (List.range e.2.1).map (nearIdx e.1 e.2.1) := by
-  decide
+    e.2.2.1 = (List.range e.2.1).map (nearIdx Gen.nearDev e.1 e.2.1) ∧
+    e.2.2.2 = (List.range e.2.1).map (nearIdx Gen.nearDev e.1 e.2.1) := by
+  decide +kernel
+
+/-! ### the label loop as coded (`DarsiaModel.SignalOps`) computes the clause forms -/
+
+/-- `np.unique(labels)`: strictly increasing, hence without repetition, and with exactly the labels that occur -/
+theorem unique_labels (labs : List Nat) :
+    (uniqSorted labs).Pairwise (· < ·) ∧ (uniqSorted labs).Nodup ∧ ∀ l, l ∈ uniqSorted labs ↔ l ∈ labs :=
+  ⟨uniqSorted_pairwise labs, uniqSorted_nodup labs, fun l => mem_uniqSorted l labs⟩
+
+/-- **`hetero_loop_eq_homog_on_label`**: `HeterogeneousLinearModel.__call__` as coded — `result = zeros`, then one
+masked assignment `result[labels == label] = (scaling[i]·img + offset[i])[…]` per unique label — returns at
+every pixel the homogeneous `LinearModel(scaling[j], offset[j])` of that pixel's label, `j` being the label's
+position among the sorted unique labels; and every pixel's label has such a position (nothing stays 0). -/
+theorem hetero_loop_eq_homog_on_label (L : Nat) (s o : List Rat) (labs : List Nat) (xs : List Rat)
+    (hl : labs.length = xs.length) :
+    hetCall s o labs xs = List.zipWith (fun l x => match idxIn (uniqSorted labs) l with
+      | some j => (M.linear (listGetD s j 0) (listGetD o j 0)).applyPix ⟨j, x⟩ | none => 0) labs xs ∧
+    ∀ l ∈ labs, ∃ j, idxIn (uniqSorted labs) l = some j ∧ j < (uniqSorted labs).length :=
+  ⟨hetCall_eq_pointwise L s o labs xs hl, fun l h => label_has_index labs l h⟩
+
+/-- the label-wise model returns the element type of the homogeneous model (after the `fix:` commit; the tie
+compares the element type of every result) -/
+theorem hetero_result_type (L : Nat) (s o : List Rat) (a b : Rat) (d : DType) :
+    (M.het L s o).outDType d = (M.linear a b).outDType d := rfl
+
+/-- **`threshold_ops_eq_clause`**: the code's boolean operations — `logical_and(img > lo, img < hi)`, the
+label loop with `mask[roi] = True`, then `logical_and(·, mask)` or the `return_float` conversion — select exactly
+the pixels of the clause form, for either value of `return_float`. -/
+theorem threshold_ops_eq_clause (lo : Rat) (hi : Option Rat) (rf : Bool) (xs : List Rat)
+    (los : List Rat) (his : Option (List Rat)) (labs : List Nat) (hl : labs.length = xs.length) :
+    (thrFinish rf none (thrHomCall lo hi xs)).2 = xs.map (fun x => thrHom lo hi none ⟨0, x⟩) ∧
+    (∀ mask : List Bool, (thrFinish rf (some mask) (thrHomCall lo hi xs)).2
+      = List.zipWith (fun x m => thrHom lo hi (some m) ⟨0, x⟩) xs mask) ∧
+    thrHetCall los his labs xs = List.zipWith (fun l x => match idxIn (uniqSorted labs) l with
+      | some j => thrHet los his none ⟨j, x⟩ | none => false) labs xs :=
+  ⟨(thrHom_finish lo hi rf xs).1, (thrHom_finish lo hi rf xs).2, thrHetCall_eq_pointwise los his labs xs hl⟩
+
+/-- **`wrapper_loop_eq_model`**: `HeterogeneousModel.__call__` as coded (`output = zeros`,
+`output[mask_i] = model_i(signal[mask_i])`) runs every pixel through the model stored for its label -/
+theorem wrapper_loop_eq_model (ms : List M) (labs : List Nat) (xs : List Rat) (hl : labs.length = xs.length) :
+    wrapCall ms labs xs = List.zipWith (fun l x => match idxIn (uniqSorted labs) l with
+      | some j => wrapApplyPix ms ⟨j, x⟩ | none => 0) labs xs :=
+  wrapCall_eq_pointwise ms labs xs hl
 
 /-! ### kernel interpolation (partial: `exp`, `np.linalg.inv`, float32 are observed, not modelled) -/
 
@@ -240,6 +294,16 @@ theorem interp_reproduces_after_updates {F : Type} [Field F] (kfun : Nat → Pt 
   rw [h4]
   exact interp_reproduces (Kmat kfun st.kernel key.2) hK _ i
 
+open Darsia.Kern in
+/-- **accelerated evaluation = plain kernel sum** (model of the loop both `linear_combination` implementations
+run: start with `w₀·k(x, s₀)`, accumulate `w_n·k(x, s_n)`), for every kernel function over any commutative
+semiring and every supported signal shape — single pixel `(3,)`, pixel list `(N, 3)`, image `(H, W, 3)`:
+each entry of the result is `Σ_n w_n k(x, s_n)` at its pixel. (Tied exactly for `LinearKernel` on dyadic
+float32 inputs, numba and plain; `exp` in `GaussianKernel` and fastmath reassociation are observed, 1e-5.) -/
+theorem kernel_loop_eq_plain_sum {F : Type} [CommSemiring F] (k : Pt → Pt → F) (ws : List F) (ss : List Pt)
+    (sig : Signal) : sig.combine k ws ss = sig.pixels.map (plainSum k ws ss) :=
+  combine_eq_plainSum k ws ss sig
+
 /-! ### polynomial approximation space -/
 
 /-- `poly_span`: for every degree `d` the exponent list has no repetition, contains exactly the pairs
@@ -256,8 +320,10 @@ theorem poly_matches_code : ∀ d ∈ Gen.polyDegrees,
 /-! ### non-vacuity -/
 
 /-- coarse call, then native resolution: the original stripes are back -/
-example : cacheRun [[1, 2, 1, 2], [1, 2, 1, 2]] [(1, 2), (2, 4)] = [[1, 2, 1, 2], [1, 2, 1, 2]] ∧
-    cacheRun [[1, 2, 1, 2], [1, 2, 1, 2]] [(1, 2)] = [[1, 1]] := by decide
+example : cacheRun [] [[1, 2, 1, 2], [1, 2, 1, 2]] [(1, 2), (2, 4)] = [[1, 2, 1, 2], [1, 2, 1, 2]] ∧
+    cacheRun [] [[1, 2, 1, 2], [1, 2, 1, 2]] [(1, 2)] = [[1, 1]] := by decide
+/-- a rounding point of OpenCV: 14 → 18, x = 9: exact ⌊9·14/18⌋ = 7, OpenCV takes 6 -/
+example : (14, 18, 9) ∈ Gen.nearDev ∧ nearIdx Gen.nearDev 14 18 9 = 6 ∧ nearIdxExact 14 18 9 = 7 := by decide +kernel
 
 open Darsia.Kern in
 /-- a sequence with unsorted supports, a duplicate row, a kernel change and a value-only update: the weights
